@@ -32,6 +32,9 @@ RULE = ("choice tree: 102 base protos (24 hand-written @script functions: 20 as 
         "x per constant slot {pool value, Constant node | initializer} "
         "x per value name {keep | 11-name alphabet} (deviation bound 1 quick / 2 thorough over constants and names "
         "together) x all 16 (rename,use_operators,inline_const,skip_initializers) tuples (exhaustive). "
+        "plus family sg: every accepted program of a bounded-exhaustive slice of the C01 script-program space "
+        "(vf.sggen dataflow + operator families; see coverage.sg_families) as to_model_proto() and "
+        "to_function_proto() x all 16 option tuples. "
         "distinct_nontrivial = distinct (base,kind,constants,renaming,options) leaves whose emitted source was "
         "compiled/executed and compared (ok or violating), not refused or skipped")
 ASSUMPTIONS = [
@@ -621,6 +624,12 @@ def _base_feature(case, bits, leaf):
             return "no-large-initializer"
         if kind == "no-function" and case.proto.functions:
             return "no-large-initializer"
+        if kind == "decoration-fails" and case.proto.functions and "sg" in tags:
+            # same defect, third symptom: the indented main function becomes a nested definition at the end of the
+            # preceding local function's body, and translating that nested definition fails (TranslationError /
+            # AssertionError of the liveness analysis).  `opts` is the 1-minimal option set here, so the failure
+            # disappears without skip_initializers.
+            return "no-large-initializer"
     if is_model and opts["rename"] and kind == "decoration-fails" and "Unbound name" in sym and case.proto.graph.input \
             and re.fullmatch(r"v\d+", leaf.get("unbound") or ""):
         return "graph-inputs-not-renamed"
@@ -633,6 +642,9 @@ def _base_feature(case, bits, leaf):
             return "while-reads-iteration-number"
     if kind == "invalid-model" and leaf.get("lost_functions"):
         return "model-local-function-dropped"
+    if "sg" in tags and opts["inline_const"] and kind == "decoration-fails" and "Unbound name" in sym \
+            and leaf.get("unbound") in _constant_py_names(case):
+        return "inlined-const-assigned"    # generated programs: the unbound name decides (a constant vs an attribute)
     if "attr-default" in tags and kind == "decoration-fails" and "Unbound name" in sym:
         return "attr-default-dropped"
     if "attr-ints" in tags and kind == "decoration-fails" and "NameError" in sym and leaf.get("unbound") == "Sequence":
@@ -802,6 +814,19 @@ def plan(tier, seed):
     d["cases"] = len(items)
     d["leaves_per_item"] = 16
     d["name_alphabet"] = ALPHABET
+    # family `sg`: protos obtained from generated script functions (c13_sg); a leaf = (program, proto kind, options)
+    from vf.props import c13_sg
+    st2 = explore.Stats()
+    sg_items, sg_counts = c13_sg.plan_items(tier, st2)
+    d2 = st2.as_dict()
+    n_sg_leaves = len(sg_items) * 2 * len(ALL_OPTS)
+    d["states"] += d2["states"] + n_sg_leaves
+    d["transitions"] += d2["transitions"] + n_sg_leaves
+    d["leaves"] += n_sg_leaves
+    d["pruned"] += d2["pruned"]
+    d["sg_programs"] = len(sg_items)
+    d["sg_families"] = sg_counts
+    items += sg_items
     return items, d
 
 
@@ -811,7 +836,49 @@ def worker_init(arg):
     _mods()
 
 
+def _execute_sg(item):
+    """One generated script program: decorate, then the 16 option leaves of its model and function protos."""
+    from vf import sg, sgrun
+    from vf.props import c13_sg
+    it = item["sg"]
+    text = sg.body_text(it["prog"])
+    try:
+        loaded, names = c13_sg.register(it)
+    except sgrun.Refused as r:
+        return {"status": "skip", "skip": "sg-program-refused-by-the-converter", "outcome": "sg:refused",
+                "counts": {"sg-refused": 1}, "show": text}
+    merged = {"status": "ok", "outcome": set(), "nkey": [], "counts": collections.Counter(), "viols": {}, "show": None}
+    skel = c13_sg.skeleton(it)
+    try:
+        for name, kinds in names:
+            for kind in kinds:
+                r = execute({"base": name, "kind": kind, "consts": {}, "ren": [], "opts": ALL_OPTS})
+                merged["outcome"].update("sg:" + o for o in r["outcome"].split(",") if o)
+                merged["nkey"] += r["nkey"]
+                merged["counts"].update(r["counts"])
+                merged["counts"]["sg-proto:" + kind] += 1
+                for v in r["viols"]:
+                    key = v["key"]
+                    if "@sg:" in key:      # not one of the triaged root causes: keyed by the program's structure
+                        key = key.split("@sg:")[0] + "@sg/" + skel
+                    v["detail"]["program"] = text
+                    merged["viols"].setdefault(key, {"key": key, "detail": v["detail"]})
+                if merged["show"] is None and r.get("show"):
+                    merged["show"] = text + "\n# ---- proto2python ----\n" + r["show"]
+    finally:
+        c13_sg.unregister(loaded, names)
+    viols = list(merged["viols"].values())
+    res = {"status": "viol" if viols else ("ok" if merged["nkey"] else "skip"), "outcome": ",".join(sorted(merged["outcome"])),
+           "nkey": merged["nkey"], "counts": dict(merged["counts"]), "viols": viols, "show": (merged["show"] or text)[-1500:],
+           "nontrivial": bool(merged["nkey"])}
+    if res["status"] == "skip":
+        res["skip"] = "sg-no-leaf-reached-the-oracle"
+    return res
+
+
 def execute(item):
+    if item.get("fam") == "sg":
+        return _execute_sg(item)
     case = get_case(item["base"], item["kind"], item["consts"], item["ren"])
     counts = collections.Counter()
     outcomes = set()
@@ -879,7 +946,7 @@ def execute(item):
 def summarize(items, results, tier):
     per_base = collections.Counter()
     for it, r in zip(items, results):
-        per_base[f"{it['base']}/{it['kind']}"] += 1
+        per_base["sg/" + it["sg"]["fam"] if it.get("fam") == "sg" else f"{it['base']}/{it['kind']}"] += 1
     leafc = collections.Counter()
     for r in results:
         for k, v in (r.get("counts") or {}).items():
